@@ -229,8 +229,26 @@ def run_case(case):
         for inplace in (False, True):
             for keep in (False, True):
                 a = a0.copy()
+                root = None
+                if a.ndim == 1 and a.size and rng.random() < .3:
+                    # a non-contiguous view into a larger buffer: only the viewed elements may change
+                    a, vkind = gen.as_view(rng, a)
+                    root = a
+                    while root.base is not None:
+                        root = root.base
+                    root_before = root.tobytes()
                 _record(a)
                 r, e = probe.attempt(f, a, inplace=inplace, keep_dtype=keep)
+                if root is not None and e is None:
+                    # put the viewed elements back as they were; everything else in the buffer must be as before
+                    a.view(a0.dtype)[...] = a0
+                    if root.tobytes() != root_before:
+                        COL.violation("C16.convert", "%s(inplace=%r, keep_dtype=%r) on a %s view changed bytes of the underlying "
+                                      "buffer outside the view" % (fname, inplace, keep, vkind), {"dtype": repr(a0.dtype)[:200]},
+                                      key="view-neighbours-changed")
+                    else:
+                        COL.ok("C16.convert", (fname, inplace, keep, "view-neighbours", vkind))
+                    continue
                 if e is not None or r is None or keep:
                     continue
                 # second application: idempotence (conversions) / restoration (byteswap)
